@@ -9,7 +9,7 @@ Local Open Scope Z_scope.
 Local Open Scope string_scope.
 
 Ltac kinds k :=
-  destruct k as [ | | | | b | | | s v | b s c m | s | m | | | s];
+  destruct k as [ | | | | b | | | s v | b s c m | s | m | | | s v | | s m | s];
   try destruct b; try destruct s; try destruct v; try destruct c; try destruct m.
 
 Definition getter (k : opk) : bool := match k with KGetICC | KTransformBufSize => true | _ => false end.
@@ -27,7 +27,9 @@ Definition all_kinds : list opk :=
   [KSet; KSetScaling; KSetCrop; KSetICC; KCompress B8; KCompress B12; KCompress B16; KCompressYUV; KEncodeYUV;
    KGetICC; KTransformBufSize; KHeader true true; KHeader true false; KHeader false true; KHeader false false;
    KDecompressYUV true; KDecompressYUV false;
-   KDecodeYUV true; KDecodeYUV false; KTransform true; KTransform false] ++
+   KDecodeYUV true; KDecodeYUV false; KTransform true true; KTransform true false; KTransform false true; KTransform false false;
+   KLegacyCompress; KLegacyDecompress true true; KLegacyDecompress true false; KLegacyDecompress false true;
+   KLegacyDecompress false false; KLegacyTransform true; KLegacyTransform false] ++
   flat_map (fun b => flat_map (fun s => flat_map (fun c => map (fun m => KDecompress b s c m) [true; false]) [true; false]) [true; false])
            [B8; B12; B16].
 Lemma all_kinds_complete : forall k, In k all_kinds.
@@ -138,7 +140,7 @@ Definition f11_history : list call :=
   [cl KSet [("param", 3); ("value", 80)]; cl KSet [("param", 4); ("value", 2)];
    cl (KCompress B12) [("img", 50); ("w", 16); ("h", 16); ("pf", 3)]].
 Definition f11_probe : list call :=
-  [cl (KTransform true) [("img", 1); ("jw", 64); ("jh", 48); ("jprec", 8); ("ncomp", 3)]].
+  [cl (KTransform true false) [("img", 1); ("jw", 64); ("jh", 48); ("jprec", 8); ("ncomp", 3)]].
 Lemma f11_regression :
   fst (res_used without11 f11_history f11_probe true true) <> fst (res_fresh without11 f11_history f11_probe true true) /\
   res_used all_fixed f11_history f11_probe true true = res_fresh all_fixed f11_history f11_probe true true.
@@ -180,7 +182,7 @@ Proof. vm_compute. auto. Qed.
 
 Lemma probes_nonvacuous :
   is_selfc (KDecompress B8 true true true) = true /\ plain_probe (KDecompress B8 true true true) = true /\
-  plain_probe (KTransform true) = true /\ plain_probe (KCompress B12) = true.
+  plain_probe (KTransform true true) = true /\ plain_probe (KLegacyDecompress true false) = true.
 Proof. auto. Qed.
 
 (* ------------------------------------------------------------ (3) reset lists *)
@@ -255,3 +257,21 @@ Lemma marker_facts :
   | None => False
   end.
 Proof. vm_compute. auto. Qed.
+
+Lemma copy_filter_lemma : copy_filter_within_setup = true.
+Proof. vm_compute. reflexivity. Qed.
+
+(* with F13 fixed in the source every non-getter kind is a plain probe *)
+Lemma plain_probe_all : forall k, getter k = false -> plain_probe k = true.
+Proof. intros k H. kinds k; try discriminate H; vm_compute; reflexivity. Qed.
+
+(* the members the model's processFlags assigns, in program order, are those of the source *)
+Fixpoint cset_targets (c : cmd) : list string :=
+  match c with
+  | CSeq a b => (cset_targets a ++ cset_targets b)%list
+  | CSet f _ => [snd f]
+  | CIf _ a b => (cset_targets a ++ cset_targets b)%list
+  | _ => []
+  end.
+Lemma process_flags_source : cset_targets (process_flags true) = process_flags_fields.
+Proof. vm_compute. reflexivity. Qed.
